@@ -361,3 +361,39 @@ def bd5(prog, rr):
             if not ok:
                 rr.finding(f, n, _q(f), "BD5: merging a range into its predecessor sets the upper bound to '%s' instead of max(%s, <merged range's upper>): when the later "
                            "range lies inside the earlier one (or the ranges are not ordered by upper bound) values above it are cut off" % (norm(v), cur))
+
+
+# --------------------------------------------------------------------------------------- LW13
+PYOP_DUNDER = {ast.Add: "__add__", ast.Sub: "__sub__", ast.Mult: "__mul__", ast.Div: "__truediv__", ast.FloorDiv: "__floordiv__", ast.Mod: "__mod__",
+               ast.BitAnd: "__and__", ast.BitOr: "__or__", ast.BitXor: "__xor__", ast.LShift: "__lshift__", ast.RShift: "__rshift__",
+               ast.Eq: "__eq__", ast.NotEq: "__ne__", ast.Lt: "__lt__", ast.LtE: "__le__", ast.Gt: "__gt__", ast.GtE: "__ge__", ast.Invert: "__invert__"}
+
+
+@rule("LW13", ["C02"], "every operator the constant evaluators apply to operand values is defined by the value class", engine="XS", floor=10)
+def lw13(prog, rr):
+    from rules.r20_lowering import REF_PY
+    vs = prog.cls("ValueScalar")
+    have = set()
+    for k in prog.mro(vs):
+        have |= set(k.methods)
+    fe = prog.method("XExprEvaluator", "visit_expr_bin")
+    fv = prog.method("ExprBinModel", "val")
+    used = {}
+    for f in (fe, fv):
+        for n in walk_local(f.node):
+            ops = []
+            if isinstance(n, ast.BinOp) and isinstance(n.left, ast.Name):
+                ops = [type(n.op)]
+            elif isinstance(n, ast.Compare) and isinstance(n.left, ast.Name):
+                ops = [type(o) for o in n.ops]
+            elif isinstance(n, ast.UnaryOp) and isinstance(n.op, ast.Invert) and isinstance(n.operand, ast.Name):
+                ops = [ast.Invert]
+            for o in ops:
+                if o in PYOP_DUNDER and any(x.endswith(("_val", "lhs", "rhs")) or x in ("lhs", "rhs") for x in names_in(n) if "." not in x):
+                    used.setdefault(PYOP_DUNDER[o], (f, n))
+    rr.require(len(used) >= 10, "operator uses in the constant evaluators not recognised (%d)" % len(used))
+    for d, (f, n) in sorted(used.items()):
+        rr.inst("value operator %s used in %s: defined=%s" % (d, _q(f), d in have))
+        if d not in have:
+            rr.finding(vs, vs.node, "ValueScalar." + d, "LW13: %s applies `%s` to operand values (%s) but ValueScalar does not define %s: folding a constant "
+                       "if-condition that uses this operator raises TypeError on a satisfiable program" % (_q(f), norm(n)[:40], _q(f), d), text="missing " + d)
